@@ -95,7 +95,11 @@ func checkC20(c *Ctx) {
 	c.rule = "in-process mode: PRNG request sequences over a small (height, round, step) cube mixing proposals, prevotes and precommits with increasing, repeated, regressing, conflicting-block-id and timestamp-only variants, the signer being reloaded from its key and state files with probability 1/2 between requests; offline checker over the log of released signatures + independent reads of the state file at every release. Crash mode: a child process signs an increasing stream and reports each release; the parent SIGKILLs it after a PRNG-chosen number of observed releases, then checks the state file against the release log and re-requests the last message (exact, timestamp-only variant, conflicting). Node-path crash mode: the same with a child that obtains its signer from node.NewRigoNode on an initialised home directory (the object the consensus engine would sign with), killed and started again on the same directory; the second incarnation is probed with the exact replay, a timestamp-only variant, a conflicting vote and a lower height. distinct = distinct request sequences with at least one accepted advance, one replay and one refused conflict"
 	c.assumptions = []string{"process death only (no power loss): rename atomicity on a live kernel"}
 	n := c.N(400, 60000)
-	c.Parallel(n, 0, func(i int) { c.signerSequence(i, c.Rng("c20", i)) })
+	// the request sequences run the signer inside the checking process: shielded (a child process), so that signer
+	// code that kills its process (e.g. a failing write on a goroutine of its own) is reported, not fatal to the check
+	if c.Shielded("sequences", func() { c.Parallel(n, 0, func(i int) { c.signerSequence(i, c.Rng("c20", i)) }) }) {
+		return
+	}
 	kills := c.N(80, 2000)
 	c.Parallel(kills, 8, func(i int) { c.signerKill(100000+i, c.Rng("c20kill", i)) })
 	// the same through the process-start path of the node: the signer is the one NewRigoNode hands to the consensus engine
